@@ -662,6 +662,24 @@ class CZero(_Class):
         return R.RConst(rsp, 0.0)
 
 
+class CZeroNegArg(_Class):
+    """ZeroFunctional(X) * s with s < 0: f(s x) = 0, proximal = identity.
+    (Functional.__mul__ turns argument scaling of *linear* functionals into
+    a left multiplication, whose proximal rejects negative scalars.)"""
+    name = 'ZeroFunctional*neg'
+    kinds = ('T', 'P', 'G')
+    weight = 0.3
+
+    def params(self, draw, rsp):
+        return {'s': draw(st.sampled_from([-1.0, -2.0, -0.5]))}
+
+    def make(self, space, p):
+        return S.ZeroFunctional(space) * float(p['s'])
+
+    def ref(self, rsp, p):
+        return R.RConst(rsp, 0.0)
+
+
 class CIndBox(_Class):
     name = 'IndicatorBox'
     kinds = ('T', 'P', 'G')
@@ -879,7 +897,7 @@ ENTRIES = [FL1(), FL2(), FL2Sq(), FL1L2(), FCCL1(), FCCL2(), FCCL2Sq(),
            FConst(), FHuber(), FCCKL(), FCCKLCE(), FProjSimplex(), FProjL1(),
            CLpNorm(), CL1(), CL2(), CL2Sq(), CGroupL1(), CIndGroupBall(),
            CIndLpBall(), CIndLpBallProd(), CIndLinfBallEl(), CConst(),
-           CZero(), CIndBox(), CIndNonneg(), CIndZero(), CKL(), CKLConj(),
+           CZero(), CZeroNegArg(), CIndBox(), CIndNonneg(), CIndZero(), CKL(), CKLConj(),
            CKLCE(), CKLCEConj(), CNuclear(), CIndNuclearBall(), CIndSimplex(),
            CIndSum(), CHuber(), CQuadLinConj(), CQuadNoProx()]
 BY_NAME = {e.name: e for e in ENTRIES}
@@ -1024,6 +1042,31 @@ def rule_name(fd):
     if name == 'leftscale' and float(fd['s']) == 0.0:
         return 'leftscale_zero'
     return name
+
+
+def is_linear_tree(fd):
+    """Mirror of ``Functional.is_linear`` for the trees of the grammar (the
+    only linear functionals with a proximal are zero functionals)."""
+    t = fd['t']
+    if t == 'leaf':
+        return (fd['name'] in ('ZeroFunctional', 'ZeroFunctional*neg') or
+                (fd['name'] == 'ConstantFunctional' and
+                 fd['params']['c'] == 0))
+    if t == 'sepsum':
+        return all(is_linear_tree(p) for p in fd['parts'])
+    if t == 'leftscale':
+        return float(fd['s']) == 0.0 or is_linear_tree(fd['f'])
+    if t == 'argscale':
+        if not isinstance(fd['s'], dict) and float(fd['s']) == 0.0:
+            return True      # ConstantFunctional(f(0)) with f(0) = 0
+        return is_linear_tree(fd['f'])
+    if t == 'addconst':
+        return fd['c'] == 0 and is_linear_tree(fd['f'])
+    if t == 'quadpert':
+        return fd['a'] == 0 and is_linear_tree(fd['f'])
+    if t == 'conj':
+        return False
+    return False
 
 
 NO_CONJ = ('IndicatorSimplex', 'IndicatorSumConstraint')
